@@ -90,8 +90,13 @@ def scopes(tree):
     return out
 
 
+def names_of(key, fn):
+    """the names of a scope that may be renamed freely: its locals, and for a nested function (a local of its parent) also its parameters"""
+    return (params_of(fn) if "/#" in key else []) + bindings(fn)
+
+
 def table_of(tree):
-    return {k: bindings(fn) for k, fn in scopes(tree)}
+    return {k: names_of(k, fn) for k, fn in scopes(tree)}
 
 
 class _Rename(ast.NodeTransformer):
@@ -194,16 +199,24 @@ def canonicalise(tree, expected):
     applied = []
     for key, fn in scopes(tree):
         exp = expected.get(key)
-        cur = bindings(fn)
+        cur = names_of(key, fn)
         if not exp or cur == exp or len(cur) != len(exp):
+            continue
+        nested = "/#" in key
+        if nested and len(params_of(fn)) != len([e for e in exp[:len(params_of(fn))]]):
             continue
         mapping = {c: e for c, e in zip(cur, exp) if c != e}
         # capture check: a target name must not already mean something else inside the function
-        taken = free_names(fn) | set(params_of(fn))
-        if any(e in taken for e in mapping.values()):
+        taken = free_names(fn) | (set() if nested else set(params_of(fn)))
+        if any(e in taken for e in mapping.values()) or len(set(exp)) != len(exp):
             continue
         # simultaneous renaming (a -> b, b -> a) through the transformer on a single pass
         r = _Rename(mapping)
         fn.body = [r.visit(b) for b in fn.body]
+        if nested:
+            a = fn.args
+            for x in a.posonlyargs + a.args + a.kwonlyargs + ([a.vararg] if a.vararg else []) + ([a.kwarg] if a.kwarg else []):
+                if x.arg in mapping:
+                    x.arg = mapping[x.arg]
         applied.append((key, mapping))
     return applied
